@@ -33,3 +33,15 @@ prop('C19', rules=['rows'], take=['C19.slots'], floors=FLOOR_EXT,
      explanation=ROWS_EXPL + ' C19.slots: the four writes of the active-state id use after_guard, after_exit, after_action, after_entry in this order, interleaved with the behaviours.')
 prop('C09', rules=['rows'], take=['C09.exit-active'], floors={'exit-source-exec:back': 1, 'exit-source-exec:back11': 1, 'exit-source-exec:backmp11': 1},
      explanation=ROWS_EXPL + ' C09.exit-active: an executor whose source is an exit pseudostate has a path returning HANDLED_FALSE before the guard, decided by a test that depends on the owner submachine\'s active-state array.')
+
+prop('C04', rules=['queues', 'flag'], take=['C04.queue-ops', 'C04.dequeue', 'C04.erase', 'C04.target', 'C04.flag', 'C04.flag-exc', 'C04.flag-drain', 'C04.flag-exit'],
+     floors={'flag-fn:back:process_event_internal': 1, 'flag-fn:back11:process_event_internal': 1, 'flag-fn:backmp11:process_event_internal': 1,
+             'flag-fn:back:start': 1, 'flag-fn:back11:start': 1, 'flag-fn:back:do_entry': 1, 'flag-fn:back11:do_entry': 1, 'flag-fn:backmp11:on_entry': 1,
+             'flag-fn:backmp11:on_explicit_entry': 1, 'flag-fn:backmp11:process_completion_transition': 1,
+             'queue-op:back:MSGQ:push_back': 1, 'queue-op:back11:MSGQ:push_back': 1, 'queue-op:back:MSGQ:pop_front': 1, 'queue-op:back11:MSGQ:pop_front': 1,
+             'queue-op:backmp11:POOL:push_back': 1, 'queue-op:backmp11:POOL:erase': 1, 'queue-op:backmp11:POOL:push_front': 1,
+             'dequeue-site:back:process_message_queue': 1, 'dequeue-site:back11:process_message_queue': 1,
+             'dequeue-site:back:execute_queued_events_helper': 1, 'dequeue-site:back:execute_single_queued_event_helper': 1,
+             'dequeue-site:back11:execute_queued_events_helper': 1, 'dequeue-site:back11:execute_single_queued_event_helper': 1,
+             'stored-callable:back:MSGQ': 1, 'stored-callable:back11:MSGQ': 1},
+     explanation='Processing-flag typestate (must-analysis T/F over the CFG of process_event_internal, process_completion_transition, start, do_entry, on_entry, on_explicit_entry with summaries of the flag helpers and scope guards): behaviours and the dispatch run with the flag set, pending-event processing runs with it cleared, every exit leaves it cleared, entry sequences hold it through a scope guard. Queue discipline: who-may-call table for every mutating operation on the message queue, deferred queue and event pool; dequeue protocol front < pop_front < invoke of a by-value copy; erase only of an occurrence marked processed; stored callable bound to the submitting machine with the event by value.')
